@@ -240,6 +240,7 @@ func genStage(p *simkit.Plan, r *simkit.Rand, tier string) {
 	c["order"] = int64(r.Intn(5)) // 0 normal, 1 stage before scan, 2 transition before scan, 3 stage twice, 4 transition twice
 	c["shuffle"] = int64(r.Uint64() >> 1)
 	c["internal_staging"] = int64(r.Intn(2))
+	c["edit_between"] = int64(r.Intn(3) / 2)
 }
 
 func countEntries(e *core.Entry) int {
@@ -353,6 +354,41 @@ func execStage(t *testing.T, plan *simkit.Plan) *simkit.Result {
 				return
 			}
 		}
+		// Scan-time digests of which one copy was rewritten after the scan: the
+		// endpoint remembers one path per digest, so it may find the rewritten
+		// copy and ask for the data although another copy still exists (the
+		// property only says when content MAY be treated as available).
+		editedDigests := map[string]bool{}
+		if plan.C("edit_between") == 1 {
+			// Between the scan and the staging request the user rewrites, in
+			// place and at the same size, root files whose scan-time content
+			// the request names: that content is no longer in the root.
+			wanted := map[string]bool{}
+			for _, d := range digests {
+				wanted[string(d)] = true
+			}
+			var victims []string
+			walk(before, "", func(p string, x *core.Entry) {
+				if x.Kind == core.EntryKind_File && wanted[string(x.Digest)] {
+					victims = append(victims, p)
+				}
+			})
+			sort.Strings(victims)
+			for k, v := range victims {
+				if sr.Chance(2, 3) {
+					editedDigests[string(lookup(before, v).Digest)] = true
+					c.d.userOp(simkit.Op{Actor: "user", Kind: "edit", N: []int64{int64(900 + k), int64(sr.Intn(2))}, S: []string{"beta", v}})
+					s.Count("probe.edited_between_scan_and_stage", 1)
+				}
+			}
+			before = c.d.walkTree("beta")
+			inRoot = map[string]bool{}
+			walk(before, "", func(_ string, x *core.Entry) {
+				if x.Kind == core.EntryKind_File {
+					inRoot[string(x.Digest)] = true
+				}
+			})
+		}
 		request := append([]string(nil), paths...)
 		filtered, sigs, recv, err := dst.Stage(append([]string(nil), paths...), digests)
 		entriesNow := countEntries(before)
@@ -394,7 +430,7 @@ func execStage(t *testing.T, plan *simkit.Plan) *simkit.Result {
 			// A digest requested twice becomes available once staged for an
 			// earlier path only if that path is the same; copies in the
 			// root are the only cross-path source.
-			if need[p] && available {
+			if need[p] && available && !editedDigests[string(digests[i])] {
 				s.Violate("C41", "requested-although-available", "Stage", "file %q (digest %x) was requested although its content is already staged or present in the root", p, digests[i][:4])
 			}
 			if !need[p] && !available {
@@ -422,7 +458,11 @@ func execStage(t *testing.T, plan *simkit.Plan) *simkit.Result {
 			return
 		}
 		after := c.d.walkTree("beta")
-		if limit > 0 && countEntries(after) > limit {
+		// (The endpoint budgets for the removals it was asked to make; when the
+		// user's rewrite after the scan makes it refuse one of them, what stays
+		// behind is the user's, not something the transition added.)
+		refusedAfterEdit := plan.C("edit_between") == 1 && len(problems) > 0
+		if limit > 0 && countEntries(after) > limit && !refusedAfterEdit {
 			s.Violate("C41", "limit-exceeded", "Transition", "after the transition the root holds %d entries, the limit is %d", countEntries(after), limit)
 		}
 		if len(problems) == 0 && !missing {
